@@ -75,6 +75,11 @@ def run(ctx, deep=False):
         items = _exact_cases() + sockcheck.gen_scripts(ctx.seed * 31 + gen, [("outage", n)])
         good = sockcheck.judge_family(ctx, "C16", items, MONITORS, gen=gen, nontrivial=_nontrivial)
         sockcheck.validate_against_model(ctx, good, "AT%d" % gen)
+        # the buffer holds MORE than its nominal capacity when in-flight commands come back for a retry: nothing may fall off the other
+        # end silently (overflow is explicit or it does not happen) - the scripts of C01's full-buffer family, judged for silent loss
+        from props import c01
+        good = sockcheck.judge_family(ctx, "C16", c01._full_buffer_requeue(), ["c01a", "c01d"], gen=gen, nontrivial=_nontrivial)
+        sockcheck.validate_against_model(ctx, good, "AT%d" % gen)
     ctx.assumptions += ["the in-memory transport stands in for the kernel's TCP stack", "times are multiples of 1/8 s"]
 
 
